@@ -8,7 +8,7 @@ PROP = 'C16'
 LEAN_TARGETS = ['Props.C16']
 REQUIRED_THEOREMS = ['Props.C16.im2col_variants_agree', 'Props.C16.col2im_variants_agree', 'Props.C16.col2im_adjoint_of_im2col',
                      'Props.C16.fold_unfold_coverage']
-RULE = ('a few geometries with one axis of extent 253..300 (where narrow index types would wrap); geometry grid: N, C in 1..2, H, W in 1..6, kernel 1..3, stride 1..3, dilation 1..2, padding 0..d(k-1)/2+1 per axis independently '
+RULE = ('large inputs (more than 2^20 column entries, batch 3..11) on the implementation side: the three variants against the window definition (torch unfold) and the adjoint identity; a few geometries with one axis of extent 253..300 (where narrow index types would wrap); geometry grid: N, C in 1..2, H, W in 1..6, kernel 1..3, stride 1..3, dilation 1..2, padding 0..d(k-1)/2+1 per axis independently '
         '(non-square, stride > kernel, windows that do not tile), int and tuple kernel sizes, both layouts (N x CkHkW x L and the 2-D '
         'column matrix), arbitrary pad values, integer-valued data so equality is exact; every input array is handed over in one of the memory layouts C, Fortran, strided view, negative-stride view, window into a larger buffer; each of the three im2col and three col2im '
         'implementations and extract/place_windows is compared with its own model definition, ~8 % geometries without a window '
@@ -40,6 +40,37 @@ def big_geom(rng):
     if rng.chance(.5):
         return {'N': 1, 'C': rng.randint(1, 2), 'H': L, 'W': small, 'k': (k, ks), 's': (s, ss), 'p': (p, ps), 'd': (d, ds)}
     return {'N': rng.randint(1, 2), 'C': 1, 'H': small, 'W': L, 'k': (ks, k), 's': (ss, s), 'p': (ps, p), 'd': (ds, d)}
+
+
+BIG = [  # (N, C, H, W, k, s, p, d): more than 2**20 column entries, batch sizes that are not multiples of anything convenient
+    (10, 4, 64, 64, (3, 3), (1, 1), (1, 1), (1, 1)), (7, 3, 50, 50, (3, 3), (1, 1), (0, 0), (1, 1)), (3, 8, 48, 48, (5, 5), (1, 1), (2, 2), (1, 1)),
+    (5, 2, 96, 64, (3, 2), (1, 1), (1, 0), (2, 1)), (11, 1, 128, 128, (2, 2), (1, 1), (0, 0), (1, 1)), (6, 6, 40, 40, (3, 3), (1, 1), (1, 1), (1, 1)),
+]
+
+
+def _big_relations(c):
+    """implementation side only (the model would need minutes for a million entries; the theorems cover every size): on a LARGE
+    input the three im2col / col2im implementations agree with each other and with torch, and the adjoint identity holds"""
+    import torch, torch.nn.functional as F
+    ct = _ct()
+    N, C, H, W, k, s_, p, d = BIG[c['big']]
+    rs = np.random.RandomState(c['seed'])
+    x = lay(rs.randint(-4, 5, (N, C, H, W)).astype(np.float64), c.get('layout', 'C'))
+    ref = F.unfold(torch.tensor(np.ascontiguousarray(x)), k, d, p, s_).numpy()
+    for unf in (True, False):
+        a = [f(x, k, d, s_, p, 0.0, as_unfold=unf) for f in (ct.im2col, ct.im2col_v2, ct.im2col_fast)]
+        want = ref if unf else ref.transpose(1, 2, 0).reshape(ref.shape[1], -1)
+        for name, v in zip(('im2col', 'im2col_v2', 'im2col_fast'), a):
+            if v.shape != want.shape or not np.array_equal(v, want):
+                bad = int((v != want).sum()) if v.shape == want.shape else -1
+                return f'{name}(as_unfold={unf}) on input {(N, C, H, W)} kernel {k} padding {p} dilation {d}: {bad} entries differ from the window definition (torch unfold)'
+    y = rs.randint(-3, 4, ref.shape).astype(np.float64)
+    b = [f(y, (N, C, H, W), k, d, s_, p) for f in (ct.col2im, ct.col2im_v2, ct.col2im_fast)]
+    if not (np.array_equal(b[0], b[1]) and np.array_equal(b[0], b[2])):
+        return f'the three col2im implementations differ on a large input {(N, C, H, W)}'
+    if float((ref * y).sum()) != float((np.ascontiguousarray(x) * b[0]).sum()):
+        return '<im2col x, y> != <x, col2im y> on a large input'
+    return None
 
 
 def out_size(g):
@@ -82,6 +113,9 @@ def cases(rng, tier):
         if not malformed:     # place_windows without windows is outside the property (it answers zeros)
           out.append({'fn': 'place', 'g': g, 'w': wv, 'wsh': wsh, 'malformed': malformed, 'lines': [f"conv place {gl(g)} {show_ints(wsh)} {show_floats(wv)}"]})
         out.append({'fn': 'relations', 'g': g, 'x': x, 'y': y, 'pad': pad, 'malformed': malformed, 'lines': [f"conv im2col spec {gl(g)} {fbits(0.0)} 1 {show_floats(x)}"]})
+    for k_ in (rng.sample(range(len(BIG)), 2) if tier == 'quick' else range(len(BIG))):
+        out.append({'fn': 'bigrel', 'big': k_, 'seed': rng.randrange(2 ** 31), 'malformed': False, 'g': {'N': 1, 'C': 1, 'H': 1, 'W': 1, 'k': (1, 1), 's': (1, 1), 'p': (0, 0), 'd': (1, 1)},
+                    'x': [1.0], 'lines': [f"conv im2col spec 1,1,1,1 1,1 1,1 0,0 1,1 {fbits(0.0)} 1 {show_floats([1.0])}"]})
     for c in out:
         c['layout'] = rng.pick(LAYOUTS)
         c['desc'] = f"layout={c['layout']} " + c['lines'][0][:400]
@@ -187,6 +221,10 @@ def _relations(c):
 
 def compare(c, mo, io):
     diffs = [(c['lines'][0][:200], m[:200], i[:200]) for m, i in zip(mo, io) if not tprog.close_line(m, i)]
+    if not diffs and c['fn'] == 'bigrel':
+        r = outcome(lambda: _big_relations(c))
+        if r:
+            diffs.append(('large input', 'variants agree with the window definition / adjoint', str(r)))
     if not diffs and c['fn'] == 'relations' and io[0] != 'rejected':
         r = outcome(lambda: _relations(c))
         if r:
@@ -237,6 +275,9 @@ def oracle(c):
         ref = F.fold(torch.tensor(y3), (g['H'], g['W']), g['k'], g['d'], g['p'], g['s']).numpy()
         if r.shape != ref.shape or not np.array_equal(r, ref):
             return {'key': dict(key, cls='value'), 'case': cc, 'what': f"col2im[{c['variant']}] differs from torch.nn.functional.fold"}
+    if c['fn'] == 'bigrel':
+        m = outcome(lambda: _big_relations(c))
+        return {'key': dict(key, cls='large-input'), 'case': cc, 'what': str(m)} if m else None
     if c['fn'] == 'relations':
         m = outcome(lambda: _relations(c))
         if m:
